@@ -188,3 +188,52 @@ def class_table_sexp():
     return [A("lclasses")] + [
         [n, list(d["mro"]), [[f, A(k), list(al)] for f, k, al in d["fields"]]] for n, d in CLASSES.items()
     ]
+
+
+# ---- classes whose child fields the legacy library recognises only at run time (NOT in `CLASSES`: outside the Lean model;
+#      used by directed, oracle-only scenarios of C18 / C20)
+import typing as _typing
+
+
+@dataclass
+class LSeq(LNode):
+    body: _typing.Sequence[LNode] = ()
+    v: int = 0
+
+
+@dataclass
+class LAnyKid(LNode):
+    x: _typing.Any = None
+    v: int = 0
+
+
+def dyn_children(o) -> list[tuple[str, object, list]]:
+    """[(field, None | index list marker, children)] of a node of any class, read from the dataclass fields by value"""
+    import dataclasses
+    out = []
+    for f in dataclasses.fields(o):
+        if f.name.startswith("_") or f.name in ("origin",):
+            continue
+        v = getattr(o, f.name)
+        if isinstance(v, AwareASTNode):
+            out.append((f.name, False, [v]))
+        elif isinstance(v, (tuple, list)) and v and all(isinstance(x, AwareASTNode) for x in v):
+            out.append((f.name, True, list(v)))
+    return out
+
+
+def dyn_consistent(root) -> str | None:
+    """the C18 statement evaluated on the real objects of one attached tree (any classes)"""
+    stack = [root]
+    while stack:
+        n = stack.pop()
+        if n.detached or AwareASTNode.get_any(n.id) is not n:
+            return f"{type(n).__name__}(v={getattr(n, 'v', None)}) is stored in an attached tree but is detached / not returned by lookup"
+        for fname, coll, kids in dyn_children(n):
+            for i, c in enumerate(kids):
+                pf = c.parent_field.name if c.parent_field is not None else None
+                if c.parent is not n or pf != fname or c.parent_index != (i if coll else None):
+                    return (f"{type(c).__name__}(v={getattr(c, 'v', None)}) is stored at {type(n).__name__}.{fname}"
+                            f"{[i] if coll else ''} but reports parent={c.parent!r:.60} field={pf} index={c.parent_index}")
+                stack.append(c)
+    return None
